@@ -10,7 +10,9 @@ Each check has two halves:
      against EngineTrace.tla; a rejected trace is attributed to the
      property that owns the first rule it breaks.
 """
+import contextlib
 import hashlib
+import io
 import json
 import os
 import random
@@ -447,6 +449,83 @@ def rows_with_units(rep):
     rep.nontrivial.add('rows-with-units')
 
 
+def branch_flags(rep):
+    """C12: an emit flag given at branch level (store_schema at construction, or
+    Store.set_emit_values on the running engine) acts on the whole branch: every row
+    holds exactly the variables below the flagged branches, with the values the
+    hierarchy holds at that time - also a variable that a port declares with an empty
+    schema ({}: every default), a variable in a nested branch, and, once the flag is
+    set again, a node that an _add update put there; a flag False hides the branch."""
+    from vivarium.core.engine import Engine
+    from vivarium.core.process import Process
+
+    class Grow(Process):
+        defaults = {'time_step': 1.0}
+
+        def ports_schema(self):
+            return {'cell': {'mass': {'_default': 1}, 'note': {},
+                             'sub': {'deep': {'_default': 0}, 'bare': {}}},
+                    'pool': {'seed': {'_default': 0}},
+                    'dark': {'h': {'_default': 0, '_emit': True}, 'g': {}}}
+
+        def next_update(self, timestep, states):
+            upd = {'cell': {'mass': 1, 'sub': {'deep': 2},
+                            'note': {'_value': 10 * states['cell']['mass'], '_updater': 'set'}},
+                   'dark': {'h': 1}}
+            if states['cell']['mass'] == 2:
+                upd['pool'] = {'_add': [{'key': 'late', 'state': {'x': 5}}]}
+            return upd
+
+    for how in ('store_schema', 'set_emit_values'):
+        kw = {}
+        if how == 'store_schema':
+            kw['store_schema'] = {'cell': {'_emit': True}, 'pool': {'_emit': True},
+                                  'dark': {'_emit': False}}
+        with contextlib.redirect_stdout(io.StringIO()):
+            eng = Engine(processes={'grow': Grow()},
+                         topology={'grow': {'cell': ('cell',), 'pool': ('pool',),
+                                            'dark': ('dark',)}},
+                         initial_state={'cell': {'mass': 1, 'note': 7, 'sub': {'bare': 3}},
+                                        'dark': {'g': 4}},
+                         emitter='timeseries', display_info=False, **kw)
+            if how == 'set_emit_values':
+                eng.state.set_emit_values([('cell',), ('pool',)], emit=True)
+                eng.state.set_emit_values([('dark',)], emit=False)
+            held = []
+            reflag = None
+            for k in range(4):
+                eng.update(1.0)
+                if how == 'set_emit_values' and eng.global_time == 2.0:
+                    # the flag is set again now that the new child exists
+                    eng.state.set_emit_values([('pool',)], emit=True)
+                    reflag = 2.0
+                held.append((eng.global_time,
+                             {'cell': eng.state.get_path(('cell',)).get_value(),
+                              'pool': eng.state.get_path(('pool',)).get_value()}))
+            data = eng.emitter.get_data()
+        rep.evaluations += 1
+        for t, h in held:
+            row = data.get(t)
+            if row is None:
+                rep.violation({'kind': 'branch-flags', 'how': how, 'what': 'missing'},
+                              'C12 no row for time %r (%s)' % (t, how), {})
+                continue
+            exp = dict(h)
+            if reflag is None or t <= reflag:
+                # a child added after the flag was set is not covered by it
+                exp['pool'] = {k: v for k, v in exp['pool'].items() if k != 'late'}
+            got = {k: v for k, v in row.items() if k != 'time'}
+            got = {k: v for k, v in got.items() if v != {}}
+            if got != exp:
+                rep.violation({'kind': 'branch-flags', 'how': how,
+                               'differs': sorted(k for k in set(got) | set(exp)
+                                                 if got.get(k) != exp.get(k))},
+                              'C12 branches cell and pool are flagged for emission as a whole '
+                              '(%s), dark is flagged off: at time %r the hierarchy holds %r, '
+                              'the row has %r' % (how, t, exp, got), {'how': how})
+    rep.nontrivial.add('branch-flags')
+
+
 def chunked_rows(rep, scratch):
     """Breakdown.tla (an extension of C12 to the emitter that stores a large row in
     pieces): every datum x limit of the table is broken down by the real
@@ -714,6 +793,7 @@ def check(prop, tier, seed):
             rep.guard(empty_hierarchy, rep, what='a hierarchy without processes')
         if prop == 'C12':
             rep.guard(rows_with_units, rep, what='rows with units and serializers')
+            rep.guard(branch_flags, rep, what='branch-level emit flags')
             rep.guard(chunked_rows, rep, scratch, what='chunked rows')
         if prop == 'C05':
             # steps created, moved and deleted at run time (also by a step, during the
